@@ -240,6 +240,15 @@ def generate(root, d, eq_lengths, overrides=None):
         f.write('\n'.join(parts))
     with open(os.path.join(d, 'regex_meta.json'), 'w') as f:
         json.dump(meta, f)
+    # lexical forms for the chardata harnesses of the main crate (C20): INTEGER = 13, NUMERICAL = 16, BOOLEAN = 6
+    lex = []
+    for tag, n, must in (('INT', 13, '0[bB]'), ('NUM', 16, 'INF'), ('BOOL', 6, 'true')):
+        if n not in infos or must not in infos[n]['regex']:
+            raise Lost('published pattern %d is no longer the %s lexical form' % (n, tag))
+        lex.append('// %s: %s' % (tag, infos[n]['regex']))
+        lex.append(rust_ref(tag, infos[n]['dfa']))
+    with open(os.path.join(d, 'lexforms.rs'), 'w') as f:
+        f.write('\n'.join(lex) + '\n')
     return infos, meta
 
 
